@@ -3,8 +3,12 @@
 write /verif/seeded/RESULTS.json and /verif/mutants/RESULTS.json. usage: run_all_detection.py [seeds|mutants|all]"""
 import glob, json, os, re, shutil, subprocess, sys, tempfile
 V = os.path.dirname(os.path.dirname(os.path.abspath(__file__)))
-what = sys.argv[1] if len(sys.argv) > 1 else "all"
-only = set(sys.argv[2:])  # optional names: re-run just these and merge them into the existing RESULTS.json
+args = sys.argv[1:]
+OUT = None  # --out <prefix>: write <prefix>.seeds.json / <prefix>.mutants.json instead of the RESULTS.json files (parallel workers)
+if "--out" in args:
+    i = args.index("--out"); OUT = args[i + 1]; del args[i:i + 2]
+what = args[0] if args else "all"
+only = set(args[1:])  # optional names: re-run just these and merge them into the existing RESULTS.json
 
 
 def load(path):
@@ -47,7 +51,7 @@ if what in ("seeds", "all"):
         r = run(os.path.join(d, "patch.diff"), props, True)
         res[name] = {"summary": meta.get("summary", "")[:300], "needs": meta.get("needs_to_manifest", "")[:300], **r}
         print(name, {k: v["detected"] for k, v in r.get("checks", {}).items()}, "baseline", r.get("baseline_77_pass"), flush=True)
-    json.dump(res, open(os.path.join(V, "seeded", "RESULTS.json"), "w"), indent=1)
+    json.dump(res if not OUT else {k: v for k, v in res.items() if k in only}, open(OUT + ".seeds.json" if OUT else os.path.join(V, "seeded", "RESULTS.json"), "w"), indent=1)
 if what in ("mutants", "all"):
     res = load(os.path.join(V, "mutants", "RESULTS.json"))
     for f in sorted(glob.glob(os.path.join(V, "mutants", "*.diff"))):
@@ -61,4 +65,4 @@ if what in ("mutants", "all"):
         r = run(f, props, True)
         res[name] = r
         print(name, {k: v["detected"] for k, v in r.get("checks", {}).items()}, "baseline", r.get("baseline_77_pass"), flush=True)
-    json.dump(res, open(os.path.join(V, "mutants", "RESULTS.json"), "w"), indent=1)
+    json.dump(res if not OUT else {k: v for k, v in res.items() if k in only}, open(OUT + ".mutants.json" if OUT else os.path.join(V, "mutants", "RESULTS.json"), "w"), indent=1)
